@@ -176,51 +176,46 @@ theorem putSubs_FC (c : Ctx) (r : Int) (i o : Nat) (h : FC c) : OutcomeP FC (opP
 
 /-! ## relinking the stream does not touch the tree -/
 
-/-- same tree fields, copy flags, free list and size -/
-def TS (s t : Seg) : Prop := TreeSame s t ∧ t.slots.size = s.slots.size
+/-- same tree fields, copy and deletion flags, free list and size -/
+def TS (s t : Seg) : Prop := TreeSame s t ∧ t.slots.size = s.slots.size ∧ ∀ j, (t.get j).deleted = (s.get j).deleted
 
-theorem TS.rfl' (s : Seg) : TS s s := ⟨TreeSame.rfl' s, rfl⟩
+theorem TS.rfl' (s : Seg) : TS s s := ⟨TreeSame.rfl' s, rfl, fun _ => rfl⟩
 theorem TS.updR {s t : Seg} (h : TS s t) (i : Nat) (f : Slot → Slot)
-    (hf : ∀ a, (f a).parent = a.parent ∧ (f a).child = a.child ∧ (f a).sibling = a.sibling ∧ (f a).copied = a.copied) : TS s (t.upd i f) :=
-  ⟨h.1.trans (TreeSame.upd t i f hf), by rw [upd_size]; exact h.2⟩
+    (hf : ∀ a, (f a).parent = a.parent ∧ (f a).child = a.child ∧ (f a).sibling = a.sibling ∧ (f a).copied = a.copied ∧ (f a).deleted = a.deleted) :
+    TS s (t.upd i f) :=
+  ⟨h.1.trans (TreeSame.upd t i f (fun a => ⟨(hf a).1, (hf a).2.1, (hf a).2.2.1, (hf a).2.2.2.1⟩)), by rw [upd_size]; exact h.2.1,
+   fun j => by rw [get_upd]; split <;> first | (rw [(hf _).2.2.2.2]; exact h.2.2 j) | exact h.2.2 j⟩
 theorem TS.setFirstR {s t : Seg} (h : TS s t) (v : Option Nat) : TS s (t.setFirst v) :=
-  ⟨h.1.trans ⟨rfl, fun _ => ⟨rfl, rfl, rfl, rfl⟩⟩, h.2⟩
+  ⟨h.1.trans ⟨rfl, fun _ => ⟨rfl, rfl, rfl, rfl⟩⟩, h.2.1, h.2.2⟩
 theorem TS.setLastR {s t : Seg} (h : TS s t) (v : Option Nat) : TS s (t.setLast v) :=
-  ⟨h.1.trans ⟨rfl, fun _ => ⟨rfl, rfl, rfl, rfl⟩⟩, h.2⟩
+  ⟨h.1.trans ⟨rfl, fun _ => ⟨rfl, rfl, rfl, rfl⟩⟩, h.2.1, h.2.2⟩
 theorem TS.addGlyphsR {s t : Seg} (h : TS s t) (d : Int) : TS s (t.addGlyphs d) :=
-  ⟨h.1.trans ⟨rfl, fun _ => ⟨rfl, rfl, rfl, rfl⟩⟩, h.2⟩
-theorem TS.trans {s t u : Seg} (h1 : TS s t) (h2 : TS t u) : TS s u := ⟨h1.1.trans h2.1, by rw [h2.2, h1.2]⟩
-
-/-- discharges `TS s (… s …)` goals built from `upd` (keeping the tree fields), `setFirst`, `setLast`, `addGlyphs` -/
-macro "treesame" : tactic => `(tactic| repeat (first
-  | exact TS.rfl' _
-  | apply TS.setLastR
-  | apply TS.setFirstR
-  | apply TS.addGlyphsR
-  | refine TS.updR ?_ _ _ (fun _ => ⟨rfl, rfl, rfl, rfl⟩)))
+  ⟨h.1.trans ⟨rfl, fun _ => ⟨rfl, rfl, rfl, rfl⟩⟩, h.2.1, h.2.2⟩
+theorem TS.trans {s t u : Seg} (h1 : TS s t) (h2 : TS t u) : TS s u :=
+  ⟨h1.1.trans h2.1, by rw [h2.2.1, h1.2.1], fun j => by rw [h2.2.2 j, h1.2.2 j]⟩
 
 theorem finishNew_TS (s : Seg) (n : Nat) (iss : Option Nat) : TS s (s.finishNew n iss) := by
   unfold Seg.finishNew
   simp only []
   split
-  · refine TS.updR (TS.updR (TS.updR (TS.rfl' s) n _ ?_) _ _ ?_) n _ ?_ <;> (intro _; exact ⟨rfl, rfl, rfl, rfl⟩)
+  · refine TS.updR (TS.updR (TS.updR (TS.rfl' s) n _ ?_) _ _ ?_) n _ ?_ <;> (intro _; exact ⟨rfl, rfl, rfl, rfl, rfl⟩)
   · split
-    · refine TS.updR (TS.updR (TS.rfl' s) n _ ?_) n _ ?_ <;> (intro _; exact ⟨rfl, rfl, rfl, rfl⟩)
-    · refine TS.updR (TS.updR (TS.rfl' s) n _ ?_) n _ ?_ <;> (intro _; exact ⟨rfl, rfl, rfl, rfl⟩)
+    · refine TS.updR (TS.updR (TS.rfl' s) n _ ?_) n _ ?_ <;> (intro _; exact ⟨rfl, rfl, rfl, rfl, rfl⟩)
+    · refine TS.updR (TS.updR (TS.rfl' s) n _ ?_) n _ ?_ <;> (intro _; exact ⟨rfl, rfl, rfl, rfl, rfl⟩)
 
 theorem linkAtEnd_TS (s : Seg) (n : Nat) : TS s (s.linkAtEnd n) := by
   unfold Seg.linkAtEnd
   simp only []
   split
-  · refine TS.setLastR (TS.updR (TS.updR (TS.rfl' s) _ _ ?_) n _ ?_) _ <;> (intro _; exact ⟨rfl, rfl, rfl, rfl⟩)
+  · refine TS.setLastR (TS.updR (TS.updR (TS.rfl' s) _ _ ?_) n _ ?_) _ <;> (intro _; exact ⟨rfl, rfl, rfl, rfl, rfl⟩)
   · exact TS.setLastR (TS.setFirstR (TS.rfl' s) _) _
 
 theorem linkBefore_TS (s : Seg) (n i : Nat) : TS s (s.linkBefore n i) := by
   unfold Seg.linkBefore
   simp only []
   split
-  · refine TS.updR (TS.updR (TS.rfl' s) _ _ ?_) n _ ?_ <;> (intro _; exact ⟨rfl, rfl, rfl, rfl⟩)
-  · refine TS.setFirstR (TS.updR (TS.rfl' s) n _ ?_) _ <;> (intro _; exact ⟨rfl, rfl, rfl, rfl⟩)
+  · refine TS.updR (TS.updR (TS.rfl' s) _ _ ?_) n _ ?_ <;> (intro _; exact ⟨rfl, rfl, rfl, rfl, rfl⟩)
+  · refine TS.setFirstR (TS.updR (TS.rfl' s) n _ ?_) _ <;> (intro _; exact ⟨rfl, rfl, rfl, rfl, rfl⟩)
 
 theorem addGlyphs_TS (s : Seg) (d : Int) : TS s (s.addGlyphs d) := TS.addGlyphsR (TS.rfl' s) d
 
@@ -235,12 +230,12 @@ theorem unlink_TS (s : Seg) (i : Nat) : TS s (s.unlink i) := by
   have h1 : TS s (s.setNextOf (s.get i).prev (s.get i).next) := by
     unfold Seg.setNextOf
     split
-    · refine TS.updR (TS.rfl' s) _ _ ?_ <;> (intro _; exact ⟨rfl, rfl, rfl, rfl⟩)
-    · refine TS.setFirstR (TS.rfl' s) _ <;> (intro _; exact ⟨rfl, rfl, rfl, rfl⟩)
+    · refine TS.updR (TS.rfl' s) _ _ ?_ <;> (intro _; exact ⟨rfl, rfl, rfl, rfl, rfl⟩)
+    · refine TS.setFirstR (TS.rfl' s) _ <;> (intro _; exact ⟨rfl, rfl, rfl, rfl, rfl⟩)
   refine h1.trans ?_
   unfold Seg.setPrevOf
   split
-  · refine TS.updR (TS.rfl' _) _ _ ?_ <;> (intro _; exact ⟨rfl, rfl, rfl, rfl⟩)
+  · refine TS.updR (TS.rfl' _) _ _ ?_ <;> (intro _; exact ⟨rfl, rfl, rfl, rfl, rfl⟩)
   · exact TS.setLastR (TS.rfl' _) _
 
 /-- `newSlot` as a frame: the arena only grows, the free list only shrinks (or is rebuilt from new blank slots) -/
@@ -305,7 +300,7 @@ theorem attrSet_FC (c : Ctx) (a b : Nat) (v : Int) (hps : PS c) (h : FC c) : Out
               unfold Real; cases hq : (c.seg.get other).copied with
               | false => rfl
               | true => exact absurd hq hg.2.2.1
-            obtain ⟨hF', hfree', hcop', hpar'⟩ := attach_forest h.1 (decide (c.dir ≠ 0) != decide ((v % 65536).toNat > b))
+            obtain ⟨hF', hfree', hcop', hpar', _⟩ := attach_forest h.1 (decide (c.dir ≠ 0) != decide ((v % 65536).toNat > b))
               hir hor (fun hh => hg.1 hh.symm) his hos hif hof
             refine ⟨hF', h.2.frame rfl (copyFrame_of hfree' (attach_same _ _ _ _).size hcop' (fun j hj => hpar' j (fun hh => hj (hh ▸ hir))))⟩
       · exact h
@@ -325,13 +320,13 @@ theorem delete_FC (c : Ctx) (hps : PS c) (h : FC c) : OutcomeP FC (opDelete c) :
     · obtain ⟨l, hj⟩ := hps
       obtain ⟨his, hif, hir⟩ := hj.is_facts hi
       -- marking and unlinking do not touch the tree
-      have ta : TS c.seg (c.seg.upd i fun sl => sl.setDeleted true) := by
-        refine TS.updR (TS.rfl' _) i _ ?_
-        intro _; exact ⟨rfl, rfl, rfl, rfl⟩
-      have t1 : TS c.seg ((c.seg.upd i fun sl => sl.setDeleted true).unlink i) := ta.trans (unlink_TS _ i)
+      have t1 : TreeSame c.seg ((c.seg.upd i fun sl => sl.setDeleted true).unlink i) ∧
+          ((c.seg.upd i fun sl => sl.setDeleted true).unlink i).slots.size = c.seg.slots.size :=
+        ⟨(TreeSame.upd c.seg i (fun sl => sl.setDeleted true) (fun _ => ⟨rfl, rfl, rfl, rfl⟩)).trans (unlink_TS _ i).1,
+         by rw [(unlink_TS _ i).2.1]; simp⟩
       have hF1 := forest_congr t1.1 h.1
       have hir1 : Real ((c.seg.upd i fun sl => sl.setDeleted true).unlink i) i := by unfold Real; rw [(t1.1.fld i).2.2.2]; exact hir
-      obtain ⟨hF2, hfree2, hcop2, hpar2⟩ := detach_forest hF1 hir1
+      obtain ⟨hF2, hfree2, hcop2, hpar2, _, _⟩ := detach_forest hF1 hir1
       have hsz2 : (((c.seg.upd i fun sl => sl.setDeleted true).unlink i).detach i).slots.size = c.seg.slots.size := by
         have : (((c.seg.upd i fun sl => sl.setDeleted true).unlink i).detach i).slots.size =
             ((c.seg.upd i fun sl => sl.setDeleted true).unlink i).slots.size := by
@@ -366,7 +361,7 @@ theorem insert_FC (c : Ctx) (hps : PS c) (h : FC c) : OutcomeP FC (opInsert c) :
       obtain ⟨cf1, _, _⟩ := newSlot_copyFrame hj.clean.freeInb heq
       have t2 := (linkNew_TS seg k (skipDeleted seg (seg.slots.size + 1) (c.setMaxSize (c.maxSize - 1)).is)).trans
         (addGlyphs_TS _ 1)
-      have cf := cf1.trans (copyFrame_of_treeSame t2.1 t2.2) (fun j hj => by unfold Real at hj ⊢; rw [hcop1]; exact hj)
+      have cf := cf1.trans (copyFrame_of_treeSame t2.1 t2.2.1) (fun j hj => by unfold Real at hj ⊢; rw [hcop1]; exact hj)
       refine ⟨?_, ?_⟩
       · simp only [setMap_seg, setIs_seg, withSeg_seg]
         exact forest_congr t2.1 hF1
@@ -385,7 +380,7 @@ theorem copySlot_assoc_size (s : Seg) (i rf : Nat) : (s.copySlot i rf).slots.siz
       · rw [upd_size, (child_same _ _ _).size]; simp
   · simp
 
-theorem unmark_treeSame {s : Seg} {i : Nat} (hi : Real s i) : TS s (s.unmark i) := by
+theorem unmark_treeSame {s : Seg} {i : Nat} (hi : Real s i) : TreeSame s (s.unmark i) ∧ (s.unmark i).slots.size = s.slots.size := by
   unfold Seg.unmark
   refine ⟨⟨rfl, fun j => ?_⟩, by simp⟩
   rw [get_upd]
@@ -444,7 +439,7 @@ theorem putCopy_FC (c : Ctx) (r : Int) (hps : PS c) (h : FC c) : OutcomeP FC (op
               · rcases hrr with hrr | hrr
                 · exact absurd hrr hreal
                 · exact hrr p hp
-            obtain ⟨hF', hfree', hcop', hpar'⟩ := copySlot_forest h.1 hir hp0 hc0 hif his hgood
+            obtain ⟨hF', hfree', hcop', hpar', _⟩ := copySlot_forest h.1 hir hp0 hc0 hif his hgood
             have hsz : ((c.seg.copySlot i rf).unmark i).slots.size = c.seg.slots.size := by
               unfold Seg.unmark
               rw [upd_size]
@@ -460,7 +455,7 @@ theorem tempCopy_FC (c : Ctx) (hps : PS c) (h : FC c) : OutcomeP FC (opTempCopy 
     obtain ⟨l, hj⟩ := hps
     obtain ⟨his, hif, hir⟩ := hj.is_facts hisq
     split
-    · obtain ⟨hF1, hrn, hpn, hcn, hnf, hcop1, _, _, hpar1⟩ := newSlot_forest h.1 hj.clean.freeNodup heq
+    · obtain ⟨hF1, hrn, hpn, hcn, hnf, hcop1, _, _, hpar1, _⟩ := newSlot_forest h.1 hj.clean.freeNodup heq
       obtain ⟨cf1, hns, hnold⟩ := newSlot_copyFrame hj.clean.freeInb heq
       have hF2 := forest_of_becomes_copy hF1 hrn hpn hcn hnf (fun _ => (seg.get i).setCopied true) (fun _ => rfl) hns
       -- the frame from the old segment to the one with the copy in it
